@@ -124,9 +124,16 @@ const (
 )
 
 func literalStringMustEscapeRune(r rune, ascii bool) stringLiteralQuoteRuneEscapeMode {
-	if r == 0x0022 || r == 0x005C || r == 0x000A || r == 0x000D {
+	switch {
+	case r == 0x0008 || r == 0x0009 || r == 0x000A || r == 0x000C || r == 0x000D || r == 0x0022 || r == 0x005C:
+		// the canonical form writes these with ECHAR
 		return stringLiteralQuoteRuneEscapeECHAR
-	} else if ascii {
+	case r <= 0x001F || r == 0x007F || r == 0xFFFE || r == 0xFFFF:
+		// and the remaining control characters and non-characters with UCHAR
+		return stringLiteralQuoteRuneEscapeUCHAR4
+	}
+
+	if ascii {
 		if r > 0xffff {
 			return stringLiteralQuoteRuneEscapeUCHAR8
 		} else if r > 0x7f {
